@@ -195,6 +195,8 @@ def make(rng, hist, **force):
     s.conn = c
     v6 = g("v6", lambda: bool(rng.randrange(2)))
     s.client, s.server = tlsgen.endpoints(rng, v6, server_port=g("server_port", lambda: 443), idx=g("idx", lambda: 1))
+    if "ends" in force:
+        s.client, s.server = force["ends"]
     hist["ipv6=%s" % v6] += 1
     s.keylog = "\n".join(c.keylog_lines()) + "\n"
     return s
